@@ -2,4 +2,679 @@ import BridgeVerif.Spec.Play
 /-! Helper lemmas for C04, C05, C06, C11a (play). -/
 namespace Bridge
 
+/-! ## The loop of `calc_highest` -/
+
+/-- accumulator invariant of the loop of `calc_highest` over the prefix `pre` already scanned -/
+def HAcc (suit : Suit) (pre : List Card) (n hi : Int) : Prop :=
+  (n = -1 ∧ hi = -1 ∧ ∀ c ∈ pre, c.suit ≠ suit) ∨
+  (∃ k : Nat, n = (k : Int) ∧ ∃ c, pre[k]? = some c ∧ c.suit = suit ∧ hi = (c.rank : Int) ∧
+    (∀ c' ∈ pre, c'.suit = suit → c'.rank ≤ c.rank) ∧
+    ∀ m c', m < k → pre[m]? = some c' → c'.suit = suit → c'.rank < c.rank)
+
+theorem hacc_skip {suit : Suit} {pre : List Card} {n hi : Int} {c : Card}
+    (h : HAcc suit pre n hi) (hc : c.suit ≠ suit) : HAcc suit (pre ++ [c]) n hi := by
+  rcases h with ⟨h1, h2, h3⟩ | ⟨k, hk, d, hd, hs, hh, hmax, hlt⟩
+  · left; refine ⟨h1, h2, ?_⟩
+    intro x hx; rcases List.mem_append.1 hx with hx | hx
+    · exact h3 x hx
+    · simp at hx; subst hx; exact hc
+  · right
+    have hkl : k < pre.length := by
+      rcases Nat.lt_or_ge k pre.length with h | h
+      · exact h
+      · simp [List.getElem?_eq_none h] at hd
+    refine ⟨k, hk, d, ?_, hs, hh, ?_, ?_⟩
+    · rw [List.getElem?_append_left hkl]; exact hd
+    · intro x hx hxs; rcases List.mem_append.1 hx with hx | hx
+      · exact hmax x hx hxs
+      · simp at hx; subst hx; exact absurd hxs hc
+    · intro m x hm hx hxs
+      rw [List.getElem?_append_left (by omega)] at hx
+      exact hlt m x hm hx hxs
+
+theorem hacc_keep {suit : Suit} {pre : List Card} {n hi : Int} {c : Card}
+    (h : HAcc suit pre n hi) (hc : c.suit = suit) (hle : ¬ hi < (c.rank : Int)) :
+    HAcc suit (pre ++ [c]) n hi := by
+  rcases h with ⟨h1, h2, h3⟩ | ⟨k, hk, d, hd, hs, hh, hmax, hlt⟩
+  · exfalso; omega
+  · right
+    have hkl : k < pre.length := by
+      rcases Nat.lt_or_ge k pre.length with h | h
+      · exact h
+      · simp [List.getElem?_eq_none h] at hd
+    refine ⟨k, hk, d, ?_, hs, hh, ?_, ?_⟩
+    · rw [List.getElem?_append_left hkl]; exact hd
+    · intro x hx hxs; rcases List.mem_append.1 hx with hx | hx
+      · exact hmax x hx hxs
+      · simp at hx; subst hx; omega
+    · intro m x hm hx hxs
+      rw [List.getElem?_append_left (by omega)] at hx
+      exact hlt m x hm hx hxs
+
+theorem hacc_new {suit : Suit} {pre : List Card} {n hi : Int} {c : Card}
+    (h : HAcc suit pre n hi) (hc : c.suit = suit) (hlt' : hi < (c.rank : Int)) :
+    HAcc suit (pre ++ [c]) (pre.length : Int) (c.rank : Int) := by
+  right
+  refine ⟨pre.length, rfl, c, by simp, hc, rfl, ?_, ?_⟩
+  · intro x hx hxs; rcases List.mem_append.1 hx with hx | hx
+    · rcases h with ⟨h1, h2, h3⟩ | ⟨k, hk, d, hd, hs, hh, hmax, hlt⟩
+      · exact absurd hxs (h3 x hx)
+      · have := hmax x hx hxs; omega
+    · simp at hx; subst hx; exact Nat.le_refl _
+  · intro m x hm hx hxs
+    rw [List.getElem?_append_left hm] at hx
+    have hxm : x ∈ pre := List.mem_of_getElem? hx
+    rcases h with ⟨h1, h2, h3⟩ | ⟨k, hk, d, hd, hs, hh, hmax, hlt⟩
+    · exact absurd hxs (h3 x hxm)
+    · have := hmax x hxm hxs; omega
+
+theorem calcHighestAux_acc (suit : Suit) : ∀ (cs pre : List Card) (n hi : Int),
+    HAcc suit pre n hi →
+    ∃ hi', HAcc suit (pre ++ cs) (calcHighestAux suit cs pre.length n hi) hi' := by
+  intro cs
+  induction cs with
+  | nil => intro pre n hi h; exact ⟨hi, by simpa [calcHighestAux] using h⟩
+  | cons c cs ih =>
+    intro pre n hi h
+    have e : pre ++ c :: cs = (pre ++ [c]) ++ cs := by simp
+    have el : pre.length + 1 = (pre ++ [c]).length := by simp
+    rw [e]
+    unfold calcHighestAux
+    by_cases hc : c.suit ≠ suit
+    · rw [if_pos hc, el]; exact ih _ _ _ (hacc_skip h hc)
+    · rw [if_neg hc]
+      have hc' : c.suit = suit := Classical.not_not.1 hc
+      by_cases hl : hi < (c.rank : Int)
+      · rw [if_pos hl, el]; exact ih _ _ _ (hacc_new h hc' hl)
+      · rw [if_neg hl, el]; exact ih _ _ _ (hacc_keep h hc' hl)
+
+theorem calcHighest_acc (suit : Suit) (cs : List Card) (hs : suit ≠ .NT) :
+    ∃ hi', HAcc suit cs (calcHighest suit cs) hi' := by
+  have := calcHighestAux_acc suit cs [] (-1) (-1) (Or.inl ⟨rfl, rfl, by simp⟩)
+  simpa [calcHighest, hs] using this
+
+theorem calcHighest_spec (suit : Suit) (cs : List Card) :
+    (calcHighest suit cs = -1 ↔ (suit = .NT ∨ ∀ c ∈ cs, c.suit ≠ suit)) ∧
+    (-1 ≤ calcHighest suit cs) ∧
+    (∀ n : Nat, calcHighest suit cs = (n : Int) →
+      ∃ c, cs[n]? = some c ∧ c.suit = suit ∧ (∀ c' ∈ cs, c'.suit = suit → c'.rank ≤ c.rank) ∧
+        ∀ m c', m < n → cs[m]? = some c' → c'.suit = suit → c'.rank < c.rank) := by
+  by_cases hs : suit = .NT
+  · subst hs
+    refine ⟨by simp [calcHighest], by simp [calcHighest], ?_⟩
+    intro n hn
+    have : calcHighest Suit.NT cs = -1 := by simp [calcHighest]
+    omega
+  · obtain ⟨hi', h⟩ := calcHighest_acc suit cs hs
+    rcases h with ⟨h1, _, h3⟩ | ⟨k, hk, d, hd, hds, _, hmax, hlt⟩
+    · refine ⟨⟨fun _ => Or.inr h3, fun _ => h1⟩, by omega, ?_⟩
+      intro n hn; omega
+    · refine ⟨⟨fun e => by omega, ?_⟩, by omega, ?_⟩
+      · rintro (e | e)
+        · exact absurd e hs
+        · exact absurd hds (e d (List.mem_of_getElem? hd))
+      · intro n hn
+        have : k = n := by omega
+        subst this
+        exact ⟨d, hd, hds, hmax, hlt⟩
+
+/-! ## `playCard` field lemmas -/
+@[simp] theorem addTaken_trump (s : PState) (sd : Side) : (addTaken s sd).trump = s.trump := by cases sd <;> rfl
+@[simp] theorem addTaken_declarer (s : PState) (sd : Side) : (addTaken s sd).declarer = s.declarer := by cases sd <;> rfl
+@[simp] theorem addTaken_dummy (s : PState) (sd : Side) : (addTaken s sd).dummy = s.dummy := by cases sd <;> rfl
+@[simp] theorem addTaken_leader (s : PState) (sd : Side) : (addTaken s sd).leader = s.leader := by cases sd <;> rfl
+@[simp] theorem addTaken_active (s : PState) (sd : Side) : (addTaken s sd).active = s.active := by cases sd <;> rfl
+@[simp] theorem addTaken_trick (s : PState) (sd : Side) : (addTaken s sd).trick = s.trick := by cases sd <;> rfl
+@[simp] theorem addTaken_trickNum (s : PState) (sd : Side) : (addTaken s sd).trickNum = s.trickNum := by cases sd <;> rfl
+@[simp] theorem addTaken_history (s : PState) (sd : Side) : (addTaken s sd).history = s.history := by cases sd <;> rfl
+@[simp] theorem addTaken_used (s : PState) (sd : Side) : (addTaken s sd).used = s.used := by cases sd <;> rfl
+theorem addTaken_takenNS (s : PState) (sd : Side) :
+    (addTaken s sd).takenNS = s.takenNS + (if sd = .NS then 1 else 0) := by cases sd <;> rfl
+theorem addTaken_takenEW (s : PState) (sd : Side) :
+    (addTaken s sd).takenEW = s.takenEW + (if sd = .EW then 1 else 0) := by cases sd <;> rfl
+
+/-- the fourth card of a trick -/
+theorem playCard_complete (s : PState) (x : Card) (h : s.trick.length = 3) :
+    playCard s x =
+      addTaken { s with trick := [], used := setAdd x s.used,
+                        history := ⟨s.leader, s.trick ++ [x]⟩ :: s.history,
+                        leader := s.leader.rot (winnerIdx s.trump (s.trick ++ [x])),
+                        active := s.leader.rot (winnerIdx s.trump (s.trick ++ [x])),
+                        trickNum := s.trickNum + 1 }
+        (s.leader.rot (winnerIdx s.trump (s.trick ++ [x]))).side := by
+  simp [playCard, h, winnerIdx]
+
+/-- any other card -/
+theorem playCard_incomplete (s : PState) (x : Card) (h : s.trick.length ≠ 3) :
+    playCard s x = { s with trick := s.trick ++ [x], used := setAdd x s.used, active := s.active.left } := by
+  simp [playCard, h]
+
+@[simp] theorem playCard_trump (s : PState) (x : Card) : (playCard s x).trump = s.trump := by
+  unfold playCard; simp only []; split <;> simp
+@[simp] theorem playCard_dummy (s : PState) (x : Card) : (playCard s x).dummy = s.dummy := by
+  unfold playCard; simp only []; split <;> simp
+@[simp] theorem playCard_declarer (s : PState) (x : Card) : (playCard s x).declarer = s.declarer := by
+  unfold playCard; simp only []; split <;> simp
+@[simp] theorem playCard_used (s : PState) (x : Card) : (playCard s x).used = setAdd x s.used := by
+  unfold playCard; simp only []; split <;> simp
+
+theorem mem_setAdd (x : Card) (l : List Card) : x ∈ setAdd x l := by
+  unfold setAdd; split <;> simp_all
+
+@[simp] theorem runPlay_nil (s : PState) : runPlay s [] = s := rfl
+@[simp] theorem runPlay_cons (s : PState) (x : Card) (xs : List Card) :
+    runPlay s (x :: xs) = runPlay (playCard s x) xs := rfl
+theorem runPlay_append (s : PState) (xs ys : List Card) :
+    runPlay s (xs ++ ys) = runPlay (runPlay s xs) ys := by simp [runPlay]
+
+theorem left_rot (d : Seat) (n : Nat) : (d.rot n).left = d.rot (n + 1) := rfl
+
+/-- invariant of the playing phase after `n` cards -/
+structure PInv (s : PState) (n : Nat) : Prop where
+  act : s.active = s.leader.rot s.trick.length
+  len : s.trick.length = n % 4
+  tn : s.trickNum = n / 4 + 1
+  hl : s.history.length = n / 4
+  tk : s.takenNS + s.takenEW = n / 4
+
+theorem init_some {c : Contract} {s0 : PState} (h0 : PState.init c = some s0) :
+    ∃ b d, c.finalBid = some b ∧ c.declarer = some d ∧
+      s0 = { trump := bidDenom b, declarer := d, dummy := d.partner, leader := d.left, active := d.left,
+             trick := [], trickNum := 1, history := [], used := [], takenNS := 0, takenEW := 0 } := by
+  unfold PState.init at h0
+  split at h0
+  · next b d hb hd => exact ⟨b, d, hb, hd, by simpa using h0.symm⟩
+  · simp at h0
+
+theorem pinv_init {c : Contract} {s0 : PState} (h0 : PState.init c = some s0) : PInv s0 0 := by
+  obtain ⟨b, d, _, _, rfl⟩ := init_some h0
+  constructor <;> simp [Seat.rot]
+
+theorem pinv_step {s : PState} {n : Nat} (h : PInv s n) (x : Card) : PInv (playCard s x) (n + 1) := by
+  obtain ⟨act, len, tn, hl, tk⟩ := h
+  by_cases h3 : s.trick.length = 3
+  · rw [playCard_complete s x h3]
+    constructor
+    · simp [Seat.rot]
+    · simp; omega
+    · simp; omega
+    · simp; omega
+    · simp only [addTaken_takenNS, addTaken_takenEW]
+      cases (s.leader.rot (winnerIdx s.trump (s.trick ++ [x]))).side <;> simp <;> omega
+  · rw [playCard_incomplete s x h3]
+    constructor
+    · simp [act, left_rot]
+    · simp; omega
+    · simp; omega
+    · simp; omega
+    · simp; omega
+
+theorem pinv_run {s : PState} {n : Nat} (h : PInv s n) (plays : List Card) :
+    PInv (runPlay s plays) (n + plays.length) := by
+  induction plays generalizing s n with
+  | nil => simpa using h
+  | cons x xs ih =>
+    have := ih (pinv_step h x)
+    simpa [Nat.add_assoc, Nat.add_comm 1] using this
+
+theorem pinv_of_init {c : Contract} {s0 : PState} (h0 : PState.init c = some s0) (plays : List Card) :
+    PInv (runPlay s0 plays) plays.length := by
+  simpa using pinv_run (pinv_init h0) plays
+
+/-- four cards played from the start of a trick -/
+theorem four_cards (s : PState) (a b c d : Card) (ht : s.trick = []) :
+    let s4 := playCard (playCard (playCard (playCard s a) b) c) d
+    let w := s.leader.rot (winnerIdx s.trump [a, b, c, d])
+    s4.trick = [] ∧ s4.trump = s.trump ∧ s4.leader = w ∧
+    s4.history = ⟨s.leader, [a, b, c, d]⟩ :: s.history ∧
+    s4.takenNS = s.takenNS + (if w.side = .NS then 1 else 0) ∧
+    s4.takenEW = s.takenEW + (if w.side = .EW then 1 else 0) := by
+  intro s4 w
+  have e1 : playCard s a = { s with trick := [a], used := setAdd a s.used, active := s.active.left } := by
+    rw [playCard_incomplete s a (by simp [ht])]; simp [ht]
+  have e2 : (playCard (playCard s a) b).trick = [a, b] ∧ (playCard (playCard s a) b).leader = s.leader ∧
+      (playCard (playCard s a) b).history = s.history ∧ (playCard (playCard s a) b).takenNS = s.takenNS ∧
+      (playCard (playCard s a) b).takenEW = s.takenEW := by
+    rw [playCard_incomplete _ b (by simp [e1])]; simp [e1]
+  obtain ⟨t2, l2, h2, n2, w2⟩ := e2
+  have e3 : (playCard (playCard (playCard s a) b) c).trick = [a, b, c] ∧
+      (playCard (playCard (playCard s a) b) c).leader = s.leader ∧
+      (playCard (playCard (playCard s a) b) c).history = s.history ∧
+      (playCard (playCard (playCard s a) b) c).takenNS = s.takenNS ∧
+      (playCard (playCard (playCard s a) b) c).takenEW = s.takenEW := by
+    rw [playCard_incomplete _ c (by simp [t2])]; simp [t2, l2, h2, n2, w2]
+  obtain ⟨t3, l3, h3, n3, w3⟩ := e3
+  have hs4 : s4 = playCard (playCard (playCard (playCard s a) b) c) d := rfl
+  rw [playCard_complete _ d (by simp [t3])] at hs4
+  have hw : w = s.leader.rot (winnerIdx s.trump [a, b, c, d]) := rfl
+  simp only [playCard_trump, t3, l3, h3, n3, w3, List.cons_append, List.nil_append, ← hw] at hs4
+  rw [hs4]
+  refine ⟨by simp, by simp, by simp, by simp, ?_, ?_⟩
+  · rw [addTaken_takenNS]
+  · rw [addTaken_takenEW]
+
+theorem run_tricksOf : ∀ (plays : List Card) (s : PState), s.trick = [] →
+    (runPlay s plays).history.reverse = s.history.reverse ++ (tricksOf s.trump s.leader plays).1 ∧
+    (runPlay s plays).leader = (tricksOf s.trump s.leader plays).2.1 ∧
+    (runPlay s plays).trick = (tricksOf s.trump s.leader plays).2.2 ∧
+    (runPlay s plays).takenNS = s.takenNS + wonBy s.trump s.leader .NS plays ∧
+    (runPlay s plays).takenEW = s.takenEW + wonBy s.trump s.leader .EW plays
+  | a :: b :: c :: d :: rest, s, ht => by
+    obtain ⟨t4, tr4, l4, h4, n4, w4⟩ := four_cards s a b c d ht
+    have ih := run_tricksOf rest _ t4
+    simp only [runPlay_cons, tricksOf, wonBy]
+    rw [tr4, l4, h4, n4, w4] at ih
+    obtain ⟨i1, i2, i3, i4, i5⟩ := ih
+    refine ⟨?_, i2, i3, ?_, ?_⟩
+    · rw [i1]; simp
+    · rw [i4]; omega
+    · rw [i5]; omega
+  | [], s, ht => by simp [tricksOf, wonBy, ht]
+  | [a], s, ht => by
+    simp [tricksOf, wonBy, playCard_incomplete, ht]
+  | [a, b], s, ht => by
+    simp [tricksOf, wonBy, playCard_incomplete, ht]
+  | [a, b, c], s, ht => by
+    simp [tricksOf, wonBy, playCard_incomplete, ht]
+
+/-- general form of C04.trick_winner_is_law: only the card led must have a real suit (not `NT`) -/
+theorem trick_winner_is_law_of_head (trump : Suit) (cs : List Card)
+    (hhead : ∃ f, cs.head? = some f ∧ f.suit ≠ .NT) :
+    0 ≤ highestIdx trump cs ∧ WinsTrick trump cs (winnerIdx trump cs) := by
+  obtain ⟨f, hf, hfs⟩ := hhead
+  obtain ⟨rest, rfl⟩ : ∃ rest, cs = f :: rest := by
+    cases cs with
+    | nil => simp at hf
+    | cons x r => simp at hf; exact ⟨r, by rw [hf]⟩
+  by_cases hP : trump ≠ .NT ∧ ∃ t ∈ f :: rest, t.suit = trump
+  · obtain ⟨h1, h2, h3⟩ := calcHighest_spec trump (f :: rest)
+    have hne : calcHighest trump (f :: rest) ≠ -1 := by
+      intro e
+      rcases h1.1 e with e | e
+      · exact hP.1 e
+      · obtain ⟨t, ht, hts⟩ := hP.2; exact e t ht hts
+    have hge : 0 ≤ calcHighest trump (f :: rest) := by omega
+    have hh : highestIdx trump (f :: rest) = calcHighest trump (f :: rest) := by
+      simp only [highestIdx]; rw [if_neg (by omega)]
+    obtain ⟨n, hn⟩ := Int.eq_ofNat_of_zero_le hge
+    obtain ⟨c, hc, hcs, hmax, _⟩ := h3 n hn
+    refine ⟨by rw [hh]; exact hge, c, ?_, fun _ => ⟨hcs, hmax⟩, fun h => absurd hP h⟩
+    simp only [winnerIdx, hh, hn, Int.toNat_natCast]; exact hc
+  · obtain ⟨h1, h2, _⟩ := calcHighest_spec trump (f :: rest)
+    have hm1 : calcHighest trump (f :: rest) = -1 := by
+      apply h1.2
+      by_cases ht : trump = .NT
+      · exact Or.inl ht
+      · right; intro c hc hcs; exact hP ⟨ht, c, hc, hcs⟩
+    have hh : highestIdx trump (f :: rest) = calcHighest f.suit (f :: rest) := by
+      simp only [highestIdx]; rw [if_pos (by omega)]
+    obtain ⟨g1, g2, g3⟩ := calcHighest_spec f.suit (f :: rest)
+    have hne : calcHighest f.suit (f :: rest) ≠ -1 := by
+      intro e
+      rcases g1.1 e with e | e
+      · exact hfs e
+      · exact e f (by simp) rfl
+    have hge : 0 ≤ calcHighest f.suit (f :: rest) := by omega
+    obtain ⟨n, hn⟩ := Int.eq_ofNat_of_zero_le hge
+    obtain ⟨c, hc, hcs, hmax, _⟩ := g3 n hn
+    refine ⟨by rw [hh]; exact hge, c, ?_, fun h => absurd h hP, fun _ => ⟨f, rfl, hcs, hmax⟩⟩
+    simp only [winnerIdx, hh, hn, Int.toNat_natCast]; exact hc
+
+/-- C04.trick_winner_is_law, for real cards (`Card.ok`) -/
+theorem trick_winner_is_law_of_ok (trump : Suit) (cs : List Card) (hne : cs ≠ [])
+    (hok : ∀ c ∈ cs, c.ok = true) :
+    0 ≤ highestIdx trump cs ∧ WinsTrick trump cs (winnerIdx trump cs) := by
+  apply trick_winner_is_law_of_head
+  cases cs with
+  | nil => exact absurd rfl hne
+  | cons f r =>
+    refine ⟨f, rfl, ?_⟩
+    have := hok f (by simp)
+    simp [Card.ok] at this
+    exact this.2
+
+/-- without a hypothesis excluding cards of "suit" `NT` (which cannot be constructed in Python:
+`Card.__post_init__` rejects them) the trick-winner theorem is false -/
+theorem trick_winner_is_law_counterexample :
+    ¬ (0 ≤ highestIdx .NT [⟨2, .NT⟩] ∧ WinsTrick .NT [⟨2, .NT⟩] (winnerIdx .NT [⟨2, .NT⟩])) := by
+  intro h; exact absurd h.1 (by decide)
+
+theorem winsTrick_unique (trump : Suit) (cs : List Card) (hnd : cs.Nodup) (i j : Nat)
+    (hi : WinsTrick trump cs i) (hj : WinsTrick trump cs j) : i = j := by
+  obtain ⟨ci, hci, hi1, hi2⟩ := hi
+  obtain ⟨cj, hcj, hj1, hj2⟩ := hj
+  have mi : ci ∈ cs := List.mem_of_getElem? hci
+  have mj : cj ∈ cs := List.mem_of_getElem? hcj
+  have hil : i < cs.length := by
+    rcases Nat.lt_or_ge i cs.length with h | h
+    · exact h
+    · simp [List.getElem?_eq_none h] at hci
+  have heq : ci = cj := by
+    by_cases hP : trump ≠ .NT ∧ ∃ t ∈ cs, t.suit = trump
+    · obtain ⟨si, ri⟩ := hi1 hP
+      obtain ⟨sj, rj⟩ := hj1 hP
+      have := ri cj mj sj
+      have := rj ci mi si
+      cases ci; cases cj; simp_all; omega
+    · obtain ⟨f, hf, si, ri⟩ := hi2 hP
+      obtain ⟨g, hg, sj, rj⟩ := hj2 hP
+      have : f = g := by rw [hf] at hg; exact Option.some.inj hg
+      subst this
+      have := ri cj mj sj
+      have := rj ci mi si
+      cases ci; cases cj; simp_all; omega
+  subst heq
+  exact (List.getElem?_inj hil hnd).1 (hci.trans hcj.symm)
+
+/-! ## Full-information game -/
+
+theorem play_ok_iff (w : WithHands) (c : Card) (p : Seat) (w' : WithHands) :
+    w.play c p = .ok w' ↔ (p = w.base.active ∧ c ∈ w.hands p ∧
+      w' = { base := playCard w.base c,
+             hands := fun q => if q = p then (w.hands p).erase c else w.hands q }) := by
+  unfold WithHands.play
+  by_cases h1 : p = w.base.active
+  · subst h1
+    by_cases h2 : c ∈ w.hands w.base.active
+    · simp only [ne_eq, not_true_eq_false, if_false, h2, true_and, Except.ok.injEq]
+      exact eq_comm
+    · simp [h2]
+  · simp [h1]
+
+theorem play_error_of_not_ok (w : WithHands) (c : Card) (p : Seat)
+    (h : ¬ (p = w.base.active ∧ c ∈ w.hands p)) : ∃ e, w.play c p = .error e := by
+  unfold WithHands.play
+  by_cases h1 : p = w.base.active
+  · have h2 : c ∉ w.hands p := fun h2 => h ⟨h1, h2⟩
+    subst h1
+    exact ⟨.notHeld, by simp [h2]⟩
+  · exact ⟨.turn, by simp [h1]⟩
+
+theorem allCards_count (hands : Seat → List Card) (a : Card) :
+    (allCards hands).count a = (hands .N).count a + (hands .E).count a + (hands .S).count a + (hands .W).count a := by
+  simp only [allCards, List.count_append]
+
+/-- conservation invariant: hands and played cards together are a permutation of the deal `D` -/
+def CInv (D : List Card) (w : WithHands) : Prop := (allCards w.hands ++ w.base.used).Perm D
+
+theorem cinv_nodup {D : List Card} (hD : D.Nodup) {w : WithHands} (h : CInv D w) :
+    (allCards w.hands ++ w.base.used).Nodup := (List.Perm.nodup_iff h).2 hD
+
+theorem mem_allCards {hands : Seat → List Card} {p : Seat} {x : Card} (h : x ∈ hands p) :
+    x ∈ allCards hands := by
+  cases p <;> simp [allCards, h]
+
+theorem cinv_play {D : List Card} (hD : D.Nodup) {w w' : WithHands} {c : Card} {p : Seat}
+    (h : CInv D w) (hp : w.play c p = .ok w') : CInv D w' := by
+  obtain ⟨_, hc, rfl⟩ := (play_ok_iff w c p w').1 hp
+  have hnd := cinv_nodup hD h
+  have hcu : c ∉ w.base.used := by
+    intro hu
+    exact (List.nodup_append.1 hnd).2.2 c (mem_allCards hc) c hu rfl
+  have hcount : 0 < (w.hands p).count c := List.count_pos_iff.2 hc
+  unfold CInv at h ⊢
+  refine List.Perm.trans ?_ h
+  rw [List.perm_iff_count]
+  intro a
+  simp only [List.count_append, allCards_count, playCard_used, setAdd, if_neg hcu, List.count_cons]
+  by_cases hac : c = a
+  · subst hac
+    cases p <;> simp <;> omega
+  · have : (c == a) = false := by simpa using hac
+    cases p <;> simp [List.count_erase, this]
+
+theorem cinv_run {D : List Card} (hD : D.Nodup) : ∀ (ops : List (Card × Seat)) (w : WithHands),
+    CInv D w → CInv D (runFull w ops)
+  | [], w, h => by simpa [runFull] using h
+  | (c, p) :: ops, w, h => by
+    unfold runFull
+    split
+    · next w' hp => exact cinv_run hD ops w' (cinv_play hD h hp)
+    · exact cinv_run hD ops w h
+
+theorem withHands_init_some {c : Contract} {hands : Seat → List Card} {w0 : WithHands}
+    (h0 : WithHands.init c hands = some w0) :
+    ∃ s0, PState.init c = some s0 ∧ w0 = { base := s0, hands := hands } := by
+  unfold WithHands.init at h0
+  cases h : PState.init c with
+  | none => simp [h] at h0
+  | some s0 => simp [h] at h0; exact ⟨s0, rfl, h0.symm⟩
+
+theorem init_used {c : Contract} {s0 : PState} (h0 : PState.init c = some s0) : s0.used = [] := by
+  obtain ⟨b, d, _, _, rfl⟩ := init_some h0; rfl
+
+theorem cinv_init {c : Contract} {hands : Seat → List Card} {w0 : WithHands}
+    (h0 : WithHands.init c hands = some w0) : CInv (allCards hands) w0 := by
+  obtain ⟨s0, hs, rfl⟩ := withHands_init_some h0
+  simp [CInv, init_used hs]
+
+theorem cinv_of_init {c : Contract} {hands : Seat → List Card} {w0 : WithHands}
+    (h0 : WithHands.init c hands = some w0) (hd : IsDeal hands) (ops : List (Card × Seat)) :
+    CInv (allCards hands) (runFull w0 ops) :=
+  cinv_run hd ops w0 (cinv_init h0)
+
+/-! ## Observer -/
+
+/-- the three ways an observer accepts a play -/
+theorem observed_play_ok (o o' : Observed) (c : Card) (p : Seat) (h : o.play c p = .ok o') :
+    p = o.base.active ∧
+    ((p = o.me ∧ c ∈ o.hand ∧ o' = { o with base := playCard o.base c, hand := o.hand.erase c }) ∨
+     (p ≠ o.me ∧ p = o.base.dummy ∧ ∃ dh, o.dummyHand = some dh ∧ c ∈ dh ∧
+        o' = { o with base := playCard o.base c, dummyHand := some (dh.erase c) }) ∨
+     (p ≠ o.me ∧ p ≠ o.base.dummy ∧ o' = { o with base := playCard o.base c })) := by
+  unfold Observed.play at h
+  by_cases h1 : p = o.base.active
+  · refine ⟨h1, ?_⟩
+    rw [if_neg (by simpa using h1)] at h
+    by_cases h2 : p = o.me
+    · rw [if_pos h2] at h
+      by_cases h3 : c ∈ o.hand
+      · rw [if_neg (by simpa using h3)] at h
+        exact Or.inl ⟨h2, h3, (Except.ok.inj h).symm⟩
+      · rw [if_pos h3] at h; cases h
+    · rw [if_neg h2] at h
+      by_cases h4 : p = o.base.dummy
+      · rw [if_pos h4] at h
+        cases hdh : o.dummyHand with
+        | none => rw [hdh] at h; cases h
+        | some dh =>
+          rw [hdh] at h
+          by_cases h5 : c ∈ dh
+          · simp only [h5, not_true_eq_false, if_false] at h
+            exact Or.inr (Or.inl ⟨h2, h4, dh, rfl, h5, (Except.ok.inj h).symm⟩)
+          · simp only [h5, not_false_eq_true, if_true] at h; cases h
+      · rw [if_neg h4] at h
+        exact Or.inr (Or.inr ⟨h2, h4, (Except.ok.inj h).symm⟩)
+  · rw [if_pos h1] at h; cases h
+
+theorem observed_play_me (o : Observed) (c : Card) (p : Seat) (h1 : p = o.base.active) (h2 : p = o.me)
+    (h3 : c ∈ o.hand) :
+    o.play c p = .ok { o with base := playCard o.base c, hand := o.hand.erase c } := by
+  unfold Observed.play
+  rw [if_neg (by simpa using h1), if_pos h2, if_neg (by simpa using h3)]
+
+theorem observed_play_dummy (o : Observed) (c : Card) (p : Seat) (dh : List Card) (h1 : p = o.base.active)
+    (h2 : p ≠ o.me) (h3 : p = o.base.dummy) (h4 : o.dummyHand = some dh) (h5 : c ∈ dh) :
+    o.play c p = .ok { o with base := playCard o.base c, dummyHand := some (dh.erase c) } := by
+  unfold Observed.play
+  rw [if_neg (by simpa using h1), if_neg h2, if_pos h3, h4]
+  simp [h5]
+
+theorem observed_play_other (o : Observed) (c : Card) (p : Seat) (h1 : p = o.base.active)
+    (h2 : p ≠ o.me) (h3 : p ≠ o.base.dummy) :
+    o.play c p = .ok { o with base := playCard o.base c } := by
+  unfold Observed.play
+  rw [if_neg (by simpa using h1), if_neg h2, if_neg h3]
+
+theorem play_base (w w' : WithHands) (c : Card) (p : Seat) (hw : w.play c p = .ok w') :
+    w'.base = playCard w.base c := by
+  obtain ⟨_, _, rfl⟩ := (play_ok_iff w c p w').1 hw; rfl
+
+theorem setAdd_ne_nil (c : Card) (l : List Card) : setAdd c l ≠ [] := by
+  unfold setAdd; split
+  · next h => intro e; rw [e] at h; simp at h
+  · simp
+
+/-- simulation step.  `hme`: an observer sitting dummy holds no separate copy of dummy's hand (its own `hand`
+is that hand).  Besides acceptance and the relation, records what happens to `me` and `dummyHand`. -/
+theorem observer_simulates_strong (w w' : WithHands) (o : Observed) (c : Card) (p : Seat)
+    (hr : ObsRel w o) (hw : w.play c p = .ok w')
+    (hd : p = w.base.dummy → p ≠ o.me → o.dummyHand ≠ none)
+    (hme : o.me = w.base.dummy → o.dummyHand = none) :
+    ∃ o', o.play c p = .ok o' ∧ ObsRel w' o' ∧ o'.me = o.me ∧
+      (o.dummyHand = none → p ≠ w.base.dummy ∨ p = o.me → o'.dummyHand = none) ∧
+      (o.dummyHand ≠ none → o'.dummyHand ≠ none) := by
+  obtain ⟨hp, hc, rfl⟩ := (play_ok_iff w c p w').1 hw
+  obtain ⟨hb, hh, hdm⟩ := hr
+  have hpa : p = o.base.active := by rw [hb]; exact hp
+  by_cases h2 : p = o.me
+  · have hco : c ∈ o.hand := by rw [hh, ← h2]; exact hc
+    refine ⟨_, observed_play_me o c p hpa h2 hco, ⟨?_, ?_, ?_⟩, rfl, fun h _ => h, fun h => h⟩
+    · simp [hb]
+    · simp [hh, h2]
+    · intro dh hdh
+      have hne : o.me ≠ w.base.dummy := fun e => by rw [hme e] at hdh; cases hdh
+      simp only [playCard_dummy]
+      have : w.base.dummy ≠ p := by rw [h2]; exact fun e => hne e.symm
+      simp only [this, if_false]
+      exact hdm dh hdh
+  · by_cases h3 : p = w.base.dummy
+    · have h3' : p = o.base.dummy := by rw [hb]; exact h3
+      cases hdh : o.dummyHand with
+      | none => exact absurd hdh (hd h3 h2)
+      | some dh =>
+        have hdheq := hdm dh hdh
+        have hcd : c ∈ dh := by rw [hdheq, ← h3]; exact hc
+        refine ⟨_, observed_play_dummy o c p dh hpa h2 h3' hdh hcd, ⟨?_, ?_, ?_⟩, rfl, ?_, ?_⟩
+        · simp [hb]
+        · have : o.me ≠ p := fun e => h2 e.symm
+          simp [hh, this]
+        · intro dh' hdh'
+          simp only [playCard_dummy, Option.some.injEq] at hdh' ⊢
+          rw [← h3]; simp [← hdh', hdheq, ← h3]
+        · intro h; simp at h
+        · intro _; simp
+    · have h3' : p ≠ o.base.dummy := by rw [hb]; exact h3
+      refine ⟨_, observed_play_other o c p hpa h2 h3', ⟨?_, ?_, ?_⟩, rfl, fun h _ => h, fun h => h⟩
+      · simp [hb]
+      · have : o.me ≠ p := fun e => h2 e.symm
+        simp [hh, this]
+      · intro dh hdh
+        simp only [playCard_dummy]
+        have : w.base.dummy ≠ p := fun e => h3 e.symm
+        simp only [this, if_false]
+        exact hdm dh hdh
+
+theorem obsRel_setDummy {w : WithHands} {o : Observed} (h : ObsRel w o) :
+    ObsRel w (o.setDummy (w.hands w.base.dummy)) :=
+  ⟨h.base, h.hand, fun dh hdh => by simp [Observed.setDummy] at hdh; exact hdh.symm⟩
+
+/-- invariant of the protocol's feed: the relation; the opening lead is not dummy's; an observer that is not
+dummy knows dummy's hand from the first accepted card on; an observer sitting dummy never gets a copy -/
+structure FInv (w : WithHands) (o : Observed) : Prop where
+  rel : ObsRel w o
+  lead : w.base.used = [] → w.base.active ≠ w.base.dummy
+  known : w.base.used ≠ [] → o.me ≠ w.base.dummy → o.dummyHand ≠ none
+  dnone : o.me = w.base.dummy → o.dummyHand = none
+
+/-- one step of the feed -/
+theorem finv_step (w w' : WithHands) (o : Observed) (c : Card) (p : Seat)
+    (hi : FInv w o) (hw : w.play c p = .ok w') :
+    ∃ o', o.play c p = .ok o' ∧
+      FInv w' (if w.base.used = [] ∧ o'.me ≠ w'.base.dummy then o'.setDummy (w'.hands w'.base.dummy) else o') ∧
+      (if w.base.used = [] ∧ o'.me ≠ w'.base.dummy then o'.setDummy (w'.hands w'.base.dummy) else o').me
+        = o.me := by
+  have hp : p = w.base.active := ((play_ok_iff w c p w').1 hw).1
+  have hb := play_base w w' c p hw
+  have hdm : w'.base.dummy = w.base.dummy := by rw [hb]; simp
+  have hd : p = w.base.dummy → p ≠ o.me → o.dummyHand ≠ none := by
+    intro h1 h2
+    by_cases hu : w.base.used = []
+    · exact absurd (hp.symm.trans h1) (hi.lead hu)
+    · exact hi.known hu (fun e => h2 (h1.trans e.symm))
+  obtain ⟨o', hplay, hR, hme', hnone, hk⟩ := observer_simulates_strong w w' o c p hi.rel hw hd hi.dnone
+  have hused : w'.base.used ≠ [] := by rw [hb, playCard_used]; exact setAdd_ne_nil _ _
+  refine ⟨o', hplay, ?_, ?_⟩
+  · by_cases hcond : w.base.used = [] ∧ o'.me ≠ w'.base.dummy
+    · rw [if_pos hcond]
+      refine ⟨obsRel_setDummy hR, fun h => absurd h hused, fun _ _ => by simp [Observed.setDummy], ?_⟩
+      intro e; exact absurd e hcond.2
+    · rw [if_neg hcond]
+      refine ⟨hR, fun h => absurd h hused, ?_, ?_⟩
+      · intro _ hne
+        have hu : w.base.used ≠ [] := fun hu => hcond ⟨hu, hne⟩
+        exact hk (hi.known hu (by rw [← hme', ← hdm]; exact hne))
+      · intro e
+        have e' : o.me = w.base.dummy := by rw [← hme', ← hdm]; exact e
+        apply hnone (hi.dnone e')
+        by_cases hpd : p = w.base.dummy
+        · exact Or.inr (hpd.trans e'.symm)
+        · exact Or.inl hpd
+  · by_cases hcond : w.base.used = [] ∧ o'.me ≠ w'.base.dummy
+    · rw [if_pos hcond]; exact hme'
+    · rw [if_neg hcond]; exact hme'
+
+theorem observed_init_some {c : Contract} {me : Seat} {hand : List Card} {o : Observed}
+    (h0 : Observed.init c me hand = some o) :
+    ∃ s0, PState.init c = some s0 ∧ o = { base := s0, me := me, hand := hand, dummyHand := none } := by
+  unfold Observed.init at h0
+  cases h : PState.init c with
+  | none => simp [h] at h0
+  | some s0 => simp [h] at h0; exact ⟨s0, rfl, h0.symm⟩
+
+theorem partner_ne_left (d : Seat) : d.left ≠ d.partner := by cases d <;> decide
+
+theorem finv_init {c : Contract} {hands : Seat → List Card} {me : Seat} {w : WithHands} {o : Observed}
+    (hw : WithHands.init c hands = some w) (ho : Observed.init c me (hands me) = some o) :
+    FInv w o ∧ o.me = me := by
+  obtain ⟨s0, hs, rfl⟩ := withHands_init_some hw
+  obtain ⟨s0', hs', rfl⟩ := observed_init_some ho
+  have : s0' = s0 := by rw [hs] at hs'; exact (Option.some.inj hs').symm
+  subst this
+  refine ⟨⟨⟨rfl, rfl, fun dh h => by cases h⟩, ?_, ?_, fun _ => rfl⟩, rfl⟩
+  · intro _
+    obtain ⟨b, d, _, _, rfl⟩ := init_some hs
+    exact partner_ne_left d
+  · intro h; exact absurd (init_used hs) h
+
+/-! ## Follow suit -/
+
+theorem availableCards_eq_followSuit (hand : List Card) (first : Option Card) :
+    availableCards hand first = followSuit hand first := by
+  cases first with
+  | none => rfl
+  | some f =>
+    simp only [availableCards, followSuit]
+    by_cases h : ∀ c ∈ hand, c.suit ≠ f.suit
+    · have e : (hand.filter fun c => decide (c.suit = f.suit)) = [] := by
+        rw [List.filter_eq_nil_iff]; intro a ha; simpa using h a ha
+      rw [if_pos h, e]; rfl
+    · have hne : (hand.filter fun c => decide (c.suit = f.suit)).length ≠ 0 := by
+        intro e
+        apply h
+        have := List.filter_eq_nil_iff.1 (List.eq_nil_of_length_eq_zero e)
+        intro a ha; simpa using this a ha
+      rw [if_neg h, if_neg hne]
+
+theorem availableCards_subset (hand : List Card) (first : Option Card) :
+    ∀ c ∈ availableCards hand first, c ∈ hand := by
+  intro c hc
+  cases first with
+  | none => exact hc
+  | some f =>
+    simp only [availableCards] at hc
+    split at hc
+    · exact hc
+    · exact (List.mem_filter.1 hc).1
+
+theorem availableCards_ne_nil (hand : List Card) (first : Option Card) (h : hand ≠ []) :
+    availableCards hand first ≠ [] := by
+  cases first with
+  | none => exact h
+  | some f =>
+    simp only [availableCards]
+    split
+    · exact h
+    · next hl => intro e; rw [e] at hl; exact hl rfl
+
 end Bridge
